@@ -39,3 +39,11 @@ Definition lat_or {T} (l : option (latdata T)) (d : latdata T) : latdata T := ma
    diffpy.structure.lattice.cartesian that atom.py falls back to when Atom.lattice is None *)
 Record cctx (T : Type) := CC { cO : ops T; cpi : T; csqrt : T -> T; ccart : latdata T }.
 Arguments CC {T}. Arguments cO {T} _. Arguments cpi {T} _. Arguments csqrt {T} _. Arguments ccart {T} _.
+
+(* identity of the array objects behind Atom._U (WU) and Atom.xyz (WX): what a rebinding statement installs *)
+Inductive which := WU | WX.
+Inductive bindev :=
+| BFresh (w : which)      (* a newly allocated array (numpy arithmetic, numpy.zeros, numpy.copy) *)
+| BOwn (w : which)        (* the atom's own current array *)
+| BParam (w : which)      (* an array object handed in by the caller *)
+| BShareSrc (w : which).  (* the array of the atom being copied *)
